@@ -23,7 +23,7 @@ func init() {
 	Register(&World{Name: "pipeline", Props: []string{"C07", "C08", "C09"}, Concurrent: true, Timed: false, MaxSteps: 60000, Run: pipelineWorld})
 	ExpectedProbes["pipeline/C07"] = []string{"depth-4", "iterator-agrees", "stream-agrees", "reducer-collect", "reducer-last", "reducer-one", "reducer-reduce", "iterator-equal", "xslices-agrees", "laziness-checked", "end-sticky-checked", "op-filter", "op-map", "op-first", "op-while", "op-compact", "op-compactfunc", "op-peek", "op-chunk", "op-chunkflat", "op-runssep", "op-runsflat", "op-runshead", "op-flatmap", "op-join", "xslices-arguments-untouched", "last-n-zero", "last-n-huge", "ilast-n-huge", "chan-leaf-fed-live", "flatten-aliased-slices"}
 	ExpectedProbes["pipeline/C08"] = []string{"fault-src-error", "fault-cb-error", "fault-ctx-precancelled", "fault-transient", "fault-ctx-deadline-midcall", "error-with-chunk-pending", "error-inside-flatten-inner", "error-in-mapstream", "error-in-batch", "error-in-merge", "single-fault-exhaustive", "multi-fault", "reducer-error", "fault-not-reached", "chan-leaf-fed-live", "chan-feeder-slow-under-deadline"}
-	ExpectedProbes["pipeline/C09"] = []string{"own-abandoned-early", "own-read-to-end", "own-after-error", "own-reducer", "own-flatten-inner", "own-join-later-args", "own-merge-inputs", "own-mapstream", "own-batch", "own-samplestream"}
+	ExpectedProbes["pipeline/C09"] = []string{"own-abandoned-early", "own-read-to-end", "own-after-error", "own-reducer", "own-flatten-inner", "own-join-later-args", "own-merge-inputs", "own-mapstream", "own-batch", "own-samplestream", "own-reducer-called-with-ended-context"}
 }
 
 type pScript struct {
@@ -34,6 +34,9 @@ type pScript struct {
 	asProp     string       // attribute output violations of this execution to this property
 	reduceFail int          // reduce: the reduction callback fails on this call (0: never)
 	deadlineAt map[int]time.Duration
+	// deadCtx: the reducer is called with a context that has already ended (cancelled, or with its
+	// deadline in the past). Only ownership is judged: whatever it returns, it closes what it was given.
+	deadCtx bool
 }
 
 type pResult struct {
@@ -263,6 +266,15 @@ func pipelineWorld(r *R) {
 			return
 		}
 	}
+	if r.Focus == "C09" {
+		// a reducer called with a context that is already over still owns the stream it was given
+		sc := &pScript{mode: []string{"collect", "reduce", "last", "one", "sample"}[r.Choose(5, "dead-ctx-reducer")], abandonAt: -1, lastN: 2, deadCtx: true}
+		plan := newFaultPlan()
+		pipelineJudge(r, prog, pipelineExec(r, prog, plan, sc, false), plan, sc, X, pulls, slack, false)
+		if r.Failed() {
+			return
+		}
+	}
 	// one sampled combination of 2-4 faults
 	if len(sites) >= 2 {
 		r.Probe("multi-fault")
@@ -333,6 +345,15 @@ func pipelineExec(r *R, prog *pnode, plan *faultPlan, sc *pScript, checkLazy boo
 		}
 	}
 	task := sim.Self()
+	rctx := root.C // the context the reducers are called with
+	if sc.deadCtx {
+		r.Fault("ctx_precancelled")
+		if r.Choose(2, "dead-by-deadline") == 1 {
+			rctx = PastDeadline(root, "reducer").C
+		} else {
+			rctx = PreCancelled(root, "reducer").C
+		}
+	}
 	switch sc.mode {
 	case "iterate":
 		ended := 0
@@ -418,7 +439,7 @@ func pipelineExec(r *R, prog *pnode, plan *faultPlan, sc *pScript, checkLazy boo
 		task.Label = ""
 	case "collect":
 		task.Label = "stream.Collect on " + prog.op
-		out, err := stream.Collect(root.C, s)
+		out, err := stream.Collect(rctx, s)
 		res.retVal, res.term, res.outs = out, err, out
 		res.ended = err == nil
 	case "last":
@@ -435,19 +456,19 @@ func pipelineExec(r *R, prog *pnode, plan *faultPlan, sc *pScript, checkLazy boo
 					r.Violate("C07", "reducer/Last/panic/n="+clampN(sc.lastN), "stream.Last(n=%d) panicked: %v", sc.lastN, p)
 				}
 			}()
-			out, err = stream.Last(root.C, s, sc.lastN)
+			out, err = stream.Last(rctx, s, sc.lastN)
 		}()
 		res.retVal, res.term = out, err
 		res.ended = err == nil
 	case "one":
 		task.Label = "stream.One on " + prog.op
-		v, err := stream.One(root.C, s)
+		v, err := stream.One(rctx, s)
 		res.retVal, res.term = []int{v}, err
 		res.ended = true
 	case "reduce":
 		task.Label = "stream.Reduce on " + prog.op
 		ncalls := 0
-		v, err := stream.Reduce(root.C, s, 0, func(acc int, x int) (int, error) {
+		v, err := stream.Reduce(rctx, s, 0, func(acc int, x int) (int, error) {
 			ncalls++
 			if ncalls == sc.reduceFail {
 				r.Fault("cb_error")
@@ -461,7 +482,7 @@ func pipelineExec(r *R, prog *pnode, plan *faultPlan, sc *pScript, checkLazy boo
 	case "sample":
 		task.Label = "xrand.RSampleStream on " + prog.op
 		rng := rand.New(rand.NewSource(int64(r.Choose(1000, "sample-seed"))))
-		out, err := xrand.RSampleStream(root.C, rng, s, sc.lastN)
+		out, err := xrand.RSampleStream(rctx, rng, s, sc.lastN)
 		res.retVal, res.term = out, err
 		res.ended = err == nil
 	}
@@ -646,6 +667,10 @@ func pipelineJudge(r *R, prog *pnode, res *pResult, plan *faultPlan, sc *pScript
 		}
 	}
 
+	if sc.deadCtx {
+		r.Probe("own-reducer-called-with-ended-context")
+		return
+	}
 	// ---- C07 / C08: outputs -----------------------------------------------------------------
 	prop := "C08"
 	if sc.asProp != "" {
